@@ -37,6 +37,8 @@ structure ODgram where
   /-- the expected socket's receive buffer had room when it arrived, whatever happened to earlier arrivals: it
   cannot have been dropped for lack of buffer space -/
   must : Bool := false
+  /-- the socket that would have received it, had its read side not been shut down before -/
+  shut : Option Nat := none
 deriving Inhabited
 
 structure OSt where
@@ -259,7 +261,9 @@ def oracleStep (st : St) (toks : List String) (res : String) : St × String :=
       | some (la, lp) =>
         let mapped := a.length == 16 && a.take 12 == [0, 0, 0, 0, 0, 0, 0, 0, 0, 0, 255, 255]
         let ra := if mapped then a.drop 12 else a
-        let np := if mapped then v4 else s.netProto
+        -- the family of the peer decides what the socket is registered for from now on (also when it was bound to
+        -- the v4-mapped wildcard before and is now connected to a native IPv6 peer)
+        let np := if mapped then v4 else if a.length == 16 then v6 else s.netProto
         -- a connected v6 socket stays registered for both families, but only its own family's addresses can match
         ret (setSock o i { s with live := true, laddr := la, lport := lp, raddr := ra, rport := p, connected := true,
                                   netProto := np, dual := false }) "ok"
@@ -289,6 +293,9 @@ def oracleStep (st : St) (toks : List String) (res : String) : St × String :=
       -- fragmented datagrams to addresses that are not assigned (promiscuous / subnet only) are not reassembled
       let exp := if fr == "1" && !(o.localAddrs.any fun p => p.1 == nic && p.2 == dst) then none else exp
       -- arrivals after the read side was closed are dropped
+      let shutFor := match exp with
+        | some i => if (o.socks.getD i {}).closedRd then some i else none
+        | none => none
       let exp := match exp with
         | some i => if (o.socks.getD i {}).closedRd then none else some i
         | none => none
@@ -298,7 +305,7 @@ def oracleStep (st : St) (toks : List String) (res : String) : St × String :=
         | some i => ((o.dgrams.filter fun g => g.expect == some i && !g.consumed).map (·.payload.length)).foldl (· + ·) 0
         | none => 0
       let lim := match exp with | some i => (o.socks.getD i {}).rcvMax | none => 0
-      ret { o with n := o.n + 1, dgrams := o.dgrams ++ [⟨o.n + 1, pl, src, sp, exp, false, exp.isSome && hi < lim⟩] } "ok"
+      ret { o with n := o.n + 1, dgrams := o.dgrams ++ [⟨o.n + 1, pl, src, sp, exp, false, exp.isSome && hi < lim, shutFor⟩] } "ok"
     | _, _, _, _, _, _, _ => (st, "bad-op")
   | ["udp.read", i] =>
     match i.toNat? with
@@ -337,7 +344,8 @@ def oracleStep (st : St) (toks : List String) (res : String) : St × String :=
             | some g =>
               let o' := { o with dgrams := o.dgrams.map fun x => if x.idx == g.idx then { x with consumed := true } else x }
               let o' := setSock o' i { s with lastIdx := g.idx }
-              if g.expect != some i then ret o' "bad c09.delivered-to-wrong-socket"
+              if g.shut == some i then ret o' "bad c11.datagram-returned-after-read-shutdown"
+              else if g.expect != some i then ret o' "bad c09.delivered-to-wrong-socket"
               else if g.idx < s.lastIdx then ret o' "bad c11.out-of-arrival-order"
               else ret o' "ok"
           | _, _ => (st, "bad-op")
